@@ -157,10 +157,11 @@ def build_cases(tier):
     per_multi("VortexMesh", "aerodynamics.vortex_mesh", "VortexMesh")
     per_multi("VortexMesh(ground)", "aerodynamics.vortex_mesh", "VortexMesh", names=["1symL_2x2", "1symR_2x3"],
               surf_over={"groundplane": True})
-    for kl in ([0.05] if tier == "quick" else [0.05, 0.0, 1.0]):
+    # every branch of the laminar-fraction switch (k_lam = 0: fully turbulent, 0 < k_lam < 1: transition, 1: fully laminar)
+    for kl in (0.05, 0.0, 1.0):
         per_surface("ViscousDrag(k_lam=%g)" % kl, "aerodynamics.viscous_drag", "ViscousDrag",
-                    names=["symL_2x2", "symL_2x3", "full_2x3"], surf_over={"k_lam": kl, "with_viscous": True},
-                    comp_kw={"with_viscous": True})
+                    names=["symL_2x2", "symL_2x3", "full_2x3"] if (kl == 0.05 or tier == "thorough") else ["symL_2x2"],
+                    surf_over={"k_lam": kl, "with_viscous": True}, comp_kw={"with_viscous": True})
     per_surface("ViscousDrag(off)", "aerodynamics.viscous_drag", "ViscousDrag", names=["symL_2x2"],
                 surf_over={"with_viscous": False}, comp_kw={"with_viscous": False})
     per_surface("WaveDrag", "aerodynamics.wave_drag", "WaveDrag", names=["symL_2x2", "symL_2x3", "full_2x3"],
@@ -195,7 +196,8 @@ def build_cases(tier):
     per_surface("StructuralCG", "structures.structural_cg", "StructuralCG")
     per_surface("TotalLoads", "structures.total_loads", "TotalLoads", names=["symL_2x2"])
     per_surface("TotalLoads(all)", "structures.total_loads", "TotalLoads", names=["symL_2x2"],
-                surf_over={"struct_weight_relief": True, "distributed_fuel_weight": True})
+                surf_over={"struct_weight_relief": True, "distributed_fuel_weight": True, "n_point_masses": 1})
+    per_surface("TotalLoads(point masses)", "structures.total_loads", "TotalLoads", names=["symL_2x2"], surf_over={"n_point_masses": 2})
     per_surface("Transform", "structures.transform", "Transform")
     per_surface("VonMisesTube", "structures.vonmises_tube", "VonMisesTube", names=["symL_2x2", "full_2x3"])
     per_surface("Weight", "structures.weight", "Weight")
@@ -464,7 +466,9 @@ def replay_point(case, env, meta, tol=1e-6):
     key = (meta["of"], meta["wrt"])
     if key not in J:
         return None, "pair %s not reported by check_partials" % (key,)
-    jf = float(np.real(J[key]["J_fwd"][meta["i"], meta["j"]]))
+    # a pair the component does not declare is a zero block as far as OpenMDAO's total derivatives are concerned
+    jf = float(np.real(J[key]["J_fwd"][meta["i"], meta["j"]])) if J[key].get("J_fwd") is not None else 0.0
+    undeclared = J[key].get("J_fwd") is None
     jd = float(np.real(J[key]["J_fd"][meta["i"], meta["j"]]))
     if not (np.isfinite(jf) and np.isfinite(jd)):
         return None, "non-finite replay values"
@@ -475,8 +479,8 @@ def replay_point(case, env, meta, tol=1e-6):
         bad = abs(jf - jd) > 1e-5 * max(abs(jf), abs(jd)) + float(nc[meta["j"]]) + 1e-300
     else:
         bad = abs(jf - jd) > tol * max(1.0, abs(jf), abs(jd)) + 1e-9
-    return bad, "analytic d%s[%d]/d%s[%d] = %.9g, central difference = %.9g" % (
-        meta["of"], meta["i"], meta["wrt"], meta["j"], jf, jd)
+    return bad, "%s d%s[%d]/d%s[%d] = %.9g, central difference = %.9g" % (
+        "undeclared (= 0 for OpenMDAO)" if undeclared else "analytic", meta["of"], meta["i"], meta["wrt"], meta["j"], jf, jd)
 
 
 def family_of(case, ob):
